@@ -1,3 +1,3 @@
 // plain object for the uid checks: no seteuid in create()
 inherit "/script";
-void create() { rec("UCREATE " + file_name(this_object())); }
+void create() { string cs; rec("UCREATE " + file_name(this_object())); cs = master()->take_create_script(); if (cs) run(cs); }
